@@ -1167,6 +1167,36 @@ func concFlushQueued(maxpend int, flushop bool, tk int) string {
 	return s.finish("flushq", flushed)
 }
 
+// kind "flushpair": two Tflush in one segment, the second naming the first (which names a tag that is not
+// outstanding, or a request blocked in the implementation): the first is often not started yet when the second
+// looks it up. Both must be answered - a Tflush is not a request that can be cancelled
+func concFlushPair(maxpend int, blocked bool) string {
+	s := newConcSession(maxpend, false)
+	s.setup()
+	const tt, f1, f2 = 730, 731, 732
+	flushed := map[uint16]bool{}
+	var cr *concReq
+	old := uint16(999)
+	if blocked {
+		s.send(statReq(tt, 0))
+		cr = s.waitReq(tt, 2*time.Second)
+		s.waitLabel(fmt.Sprintf("OC %d", 2), 2*time.Second)
+		old = tt
+		flushed[tt] = true
+	}
+	s.send(flushReq(f1, old), flushReq(f2, f1))
+	time.Sleep(500 * time.Microsecond)
+	if cr != nil {
+		cr.released <- concAction{answers: 1, payload: []byte("t")}
+	}
+	want := 4
+	if blocked {
+		want = 5
+	}
+	s.waitReplies(want, time.Second)
+	return s.finish("flushpair", flushed)
+}
+
 // kind "vertag": a Tversion sent with an ordinary tag is a request like any other: it is answered, with its tag
 func concVersionTag(maxpend int) string {
 	s := newConcSession(maxpend, false)
@@ -1641,6 +1671,8 @@ func modeSrvconc(tier string, args []string) {
 			jobs = append(jobs, func() string { return concFlushWalk(mp) })
 			jobs = append(jobs, func() string { return concFlushGroup(mp, 1) })
 			jobs = append(jobs, func() string { return concVersionTag(mp) })
+			jobs = append(jobs, func() string { return concFlushPair(mp, false) })
+			jobs = append(jobs, func() string { return concFlushPair(mp, true) })
 			jobs = append(jobs, func() string { return concSlowWrite(mp) })
 			jobs = append(jobs, func() string { return concLateAnswer(mp) })
 			for _, fo := range []bool{false, true} {
